@@ -81,6 +81,18 @@ def streams(tier, seed):
         cc[mid] = cc[mid] + (cc[mid + 1] - cc[mid]) / 3 if mid + 1 < len(cc) else cc[mid] - Fraction(1, 3)
         b["coords"][k] = [str(x) for x in cc]
         out.append([obj(0, da, False, 0), b, {"op": "binop", "f": rng.choice(ops4), "lhs": 0, "rhs": 1, "out": 2}])
+    # … and when the shared axis holds the SAME coordinate values in another stored order (reversed, rotated): position by
+    # position the labels differ, so the data must not be combined
+    for da in [x for x in l3 if len(x) >= 1][:: (1 if tier == "thorough" else 3)]:
+        for how in ("reversed", "rotated"):
+            b = obj(1, list(reversed(da)), False, 5)
+            k = rng.randrange(len(da))
+            cc = list(b["coords"][k])
+            if len(cc) < 2:
+                continue
+            b["coords"][k] = list(reversed(cc)) if how == "reversed" else cc[1:] + cc[:1]
+            out.append([obj(0, da, False, 0), b, {"op": "binop", "f": rng.choice(ops4), "lhs": 0, "rhs": 1, "out": 2}])
+            out.append([b, obj(0, da, False, 0), {"op": "binop", "f": rng.choice(ops4), "lhs": 1, "rhs": 0, "out": 2}])
     # dimensions of EQUAL extent (b, p, q all have 3 points): a mis-alignment keeps every shape, only labels can tell
     l2 = dimlists(["b", "p", "q"])
     pairs2 = [(x, y) for x in l2 for y in l2 if len(x) >= 2 or len(y) >= 2]
